@@ -121,7 +121,8 @@ def gen_plan(seed, tier):
              "unstage", "rm_cached", "commit", "switch", "switch", "touch",
              "rewrite_same", "dir_to_file", "to_link_same", "to_file_same",
              "reset_hard", "reset_hard", "add_all", "reset_mixed",
-             "dir_to_link", "new_staged_dir_reset", "untracked_mixed_dir"]),
+             "dir_to_link", "new_staged_dir_reset", "untracked_mixed_dir",
+             "revert_to_head", "stage_revert_reset"]),
             "i": rng.randrange(100), "c": rng.randrange(10**6)})
     mode = rng.choice(["normal", "normal", "skewed", "racy", "racy"])
     gran = rng.choice([1, 1000, 4 * 10**6, 10**9, 2 * 10**9])
@@ -501,6 +502,57 @@ def run_plan(plan):
                         f.write(new)
                         f.truncate()
                     m.wd[p] = ("file", new, m.wd[p][2])
+                elif op in ("revert_to_head", "stage_revert_reset"):
+                    # the committed bytes are put back by hand (an editor's
+                    # undo): the work tree equals HEAD again while the index
+                    # may still hold something else
+                    cands = [q for q in sorted(m.head)
+                             if m.wd.get(q, ("",))[0] == "file" and
+                             m.head[q][0] != 0o120000 and
+                             m.head[q][1] in CONTENT]
+                    p = pick(cands)
+                    if p is None:
+                        continue
+                    if op == "stage_revert_reset":
+                        new = m.wd[p][1] + b"staged then undone %d\n" % ed["c"]
+                        with open(fspath(p), "wb") as f:
+                            f.write(new)
+                        m.wd[p] = ("file", new, m.wd[p][2])
+                        tick()
+                        try:
+                            r.get_worktree().stage([os.fsdecode(p)])
+                        except Exception as e:  # noqa: BLE001
+                            viol(f"stage-raised/{type(e).__name__}",
+                                 f"{label}: {e!r}")
+                            break
+                        m.index[p] = m.wd_entry(p)
+                        tick("after_index_write")
+                    headc = CONTENT[m.head[p][1]]
+                    with open(fspath(p), "wb") as f:
+                        f.write(headc)
+                    m.wd[p] = ("file", headc, m.wd[p][2])
+                    m.why[p] = "size-changed"
+                    stats["probe:head_bytes_put_back_by_hand"] = 1
+                    # the reset only where the model can follow it exactly:
+                    # every other path is already what reset --hard makes of it
+                    st_, un_, ut_ = m.expected()
+                    others = (un_ | st_["add"] | st_["delete"] |
+                              st_["modify"]) - {p}
+                    if op == "stage_revert_reset" and not others:
+                        tick()
+                        status_check(label + " (before the reset)", r)
+                        if viols:
+                            break
+                        try:
+                            porcelain.reset(r, "hard")
+                        except Exception as e:  # noqa: BLE001
+                            stats["reset_refused:" + type(e).__name__] = 1
+                            stopped[0] = True
+                            break
+                        stats["probe:reset_hard_onto_matching_file"] = 1
+                        m.index[p] = m.head[p]
+                        m.wd[p] = ("file", headc, m.head[p][0] == 0o100755)
+                        tick("after_index_write")
                 elif op == "touch":
                     p = pick(present)
                     if p is None or m.wd[p][0] != "file":
